@@ -19,12 +19,24 @@ Inductive op :=
 (* query / control API of the session *)
 | FindIP | GetHosts | IPAddrs | FindByMAC | FindMACEntry | PrintTable
 | Capture | Release | IsCaptured | DHCPv4IPOffer | SetDHCPv4IPOffer
-| SessClose.
+| SessClose
+(* arp_spoofer *)
+| ArpProcess | ArpStartHunt | ArpStopHunt | ArpIsHunting | ArpPrintTable | ArpSpoofLoop | ArpClose
+(* icmp_spoofer (Handler6) *)
+| I6ProcessRA | I6StartHunt | I6StopHunt | I6PrintTable | I6SpoofLoop | I6Close
+(* dhcp4_spoofer *)
+| DhcpProcess | DhcpMinuteTicker | DhcpStartHunt | DhcpPrintTable | DhcpSend | DhcpClose
+(* dns_naming *)
+| DnsProcessDNS | DnsProcessMDNS | DnsFind | DnsClose.
 
 Definition all_ops : list op :=
   [ParseFast; ParseSlow; Notify; NotifyDhcp; DHCPv4Update; Purge; PurgeProbe; MinuteLoop; NicMonitor;
    FindIP; GetHosts; IPAddrs; FindByMAC; FindMACEntry; PrintTable;
-   Capture; Release; IsCaptured; DHCPv4IPOffer; SetDHCPv4IPOffer; SessClose].
+   Capture; Release; IsCaptured; DHCPv4IPOffer; SetDHCPv4IPOffer; SessClose;
+   ArpProcess; ArpStartHunt; ArpStopHunt; ArpIsHunting; ArpPrintTable; ArpSpoofLoop; ArpClose;
+   I6ProcessRA; I6StartHunt; I6StopHunt; I6PrintTable; I6SpoofLoop; I6Close;
+   DhcpProcess; DhcpMinuteTicker; DhcpStartHunt; DhcpPrintTable; DhcpSend; DhcpClose;
+   DnsProcessDNS; DnsProcessMDNS; DnsFind; DnsClose].
 
 Definition op_name (o : op) : string :=
   match o with
@@ -35,6 +47,15 @@ Definition op_name (o : op) : string :=
   | Capture => "Capture" | Release => "Release" | IsCaptured => "IsCaptured"
   | DHCPv4IPOffer => "DHCPv4IPOffer" | SetDHCPv4IPOffer => "SetDHCPv4IPOffer" | DHCPv4Update => "DHCPv4Update"
   | SessClose => "Close"
+  | ArpProcess => "arp.ProcessPacket" | ArpStartHunt => "arp.StartHunt" | ArpStopHunt => "arp.StopHunt"
+  | ArpIsHunting => "arp.IsHunting" | ArpPrintTable => "arp.PrintTable" | ArpSpoofLoop => "arp.spoofLoop"
+  | ArpClose => "arp.Close"
+  | I6ProcessRA => "icmp6.ProcessPacket.RA" | I6StartHunt => "icmp6.StartHunt" | I6StopHunt => "icmp6.StopHunt"
+  | I6PrintTable => "icmp6.PrintTable" | I6SpoofLoop => "icmp6.spoofLoop" | I6Close => "icmp6.Close"
+  | DhcpProcess => "dhcp4.ProcessPacket" | DhcpMinuteTicker => "dhcp4.MinuteTicker" | DhcpStartHunt => "dhcp4.StartHunt"
+  | DhcpPrintTable => "dhcp4.PrintTable" | DhcpSend => "dhcp4.sendDeclineRelease" | DhcpClose => "dhcp4.Close"
+  | DnsProcessDNS => "dns.ProcessDNS" | DnsProcessMDNS => "dns.ProcessMDNS" | DnsFind => "dns.DNSFind"
+  | DnsClose => "dns.Close"
   end.
 
 Definition field_name (f : field) : string :=
@@ -117,6 +138,21 @@ Definition notify : list T :=
 (* layer_frame.go:185-201 the part of Parse around the host lookup *)
 Definition parseCounters : list T := [TAWr FHeartBeat; TRd FStats; TWr FStats].
 
+(* session API fragments as called from handlers *)
+Definition fFindIP : list T := [TAcq LSess MR; TRd FHostTable; TRel LSess].
+Definition fIsCaptured : list T := [TAcq LSess MR; TRd FMACTable; TRd FMacCaptured; TRel LSess].
+Definition fDHCPv4IPOffer : list T := [TAcq LSess MR; TRd FMACTable; TRd FMacIP4Offer; TRel LSess].
+Definition fSetDHCPv4IPOffer : list T :=
+  [TAcq LSess MW; TRd FMACTable; TWr FMACTable; TWr FMacIP4Offer; TWr FMacNames; TRel LSess].
+Definition fDHCPv4Update : list T :=
+  findHostFast ++ findHostSlow
+  ++ [TAcq LRow MW; TRd FHostNames; TWr FHostNames; TWr FHostDirty; TRd FMacNames; TWr FMacNames; TRel LRow]
+  ++ [TAcq LRow MW; TWr FMacIP4Offer; TRd FHostOnline] ++ onlineTransition ++ [TRel LRow].
+
+(* unsynchronised `closed` flag + close(closeChan): the Close of the session and of three handlers *)
+Definition closeWith (f : field) (pre : list T) (c : chan) : list T :=
+  [TRd f; TExitIfFlag f; TWr f; TSetFlag f] ++ pre ++ [TCloseCh c].
+
 Definition simple (l : list T) : tmpl op := {| t_pre := l; t_each := []; t_post := [] |}.
 
 Definition template (o : op) : tmpl op :=
@@ -168,19 +204,92 @@ Definition template (o : op) : tmpl op :=
   | SetDHCPv4IPOffer => simple [TAcq LSess MW; TRd FMACTable; TWr FMACTable; TWr FMacIP4Offer; TWr FMacNames; TRel LSess]
   (* session.go:474-489: lookup (either path), UpdateDHCP4Name under the row lock, then IP4Offer and
      onlineTransition under the row lock *)
-  | DHCPv4Update =>
-      simple (findHostFast ++ findHostSlow
-              ++ [TAcq LRow MW; TRd FHostNames; TWr FHostNames; TWr FHostDirty; TRd FMacNames; TWr FMacNames; TRel LRow]
-              ++ [TAcq LRow MW; TWr FMacIP4Offer; TRd FHostOnline] ++ onlineTransition ++ [TRel LRow])
+  | DHCPv4Update => simple fDHCPv4Update
   (* session.go:234-243 Close: unsynchronised flag, close(closeChan), close(C) *)
   | SessClose =>
       simple [TRd FSessClosed; TExitIfFlag FSessClosed; TWr FSessClosed; TSetFlag FSessClosed;
               TCloseCh CSessClose; TCloseCh CNotify]
+
+  (* ---- handlers/arp_spoofer (arp.go, spoof.go at the current head) ---- *)
+  (* arp.go ProcessPacket: `closed` read with no lock; hunt list under arpMutex; DHCPv4IPOffer for probes *)
+  | ArpProcess => simple ([TRd FArpClosed; TAcq LArp MW; TRd FArpHuntList; TRel LArp] ++ fDHCPv4IPOffer)
+  (* spoof.go:34 StartHunt: map insert and `go spoofLoop` under arpMutex *)
+  | ArpStartHunt => simple [TAcq LArp MW; TRd FArpHuntList; TWr FArpHuntList; TSpawn ArpSpoofLoop; TRel LArp]
+  (* spoof.go:57 StopHunt *)
+  | ArpStopHunt => simple [TAcq LArp MW; TRd FArpHuntList; TWr FArpHuntList; TRel LArp]
+  (* spoof.go:11 IsHunting -> findHuntByIP ranges over the map with NO lock *)
+  | ArpIsHunting => simple [TRd FArpHuntList]
+  (* arp.go:72 PrintTable *)
+  | ArpPrintTable => simple [TAcq LArp MW; TRd FArpHuntList; TRel LArp]
+  (* spoof.go:78 spoofLoop, one iteration: membership under arpMutex, `closed` read with no lock,
+     exit when not hunted or closed; the select wakes on closeChan or the ticker *)
+  | ArpSpoofLoop => simple [TAcq LArp MW; TRd FArpHuntList; TRel LArp; TRd FArpClosed; TExitIfFlag FArpClosed; TAgain]
+  (* arp.go:63 Close *)
+  | ArpClose => simple (closeWith FArpClosed [] CArpClose)
+
+  (* ---- handlers/icmp_spoofer Handler6 (icmp6.go, icmp6spoof.go at the current head) ---- *)
+  (* icmp6.go RA branch: huntList.Len() and `closed` with no lock, closeChan swapped and the old one
+     closed with no lock; package-global `repeat`; router table under the handler lock *)
+  | I6ProcessRA =>
+      simple [TRd FI6HuntList; TRd FI6Closed; TRd FI6CloseChan; TWr FI6CloseChan; TCloseCh CI6Close;
+              TRd FI6Repeat; TWr FI6Repeat;
+              TAcq LIcmp6 MW; TRd FI6Routers; TWr FI6Routers; TWr FI6Router; TRel LIcmp6]
+  (* icmp6spoof.go:16 *)
+  | I6StartHunt => simple [TAcq LIcmp6 MW; TRd FI6HuntList; TWr FI6HuntList; TRel LIcmp6; TSpawn I6SpoofLoop]
+  (* icmp6spoof.go:40 *)
+  | I6StopHunt => simple [TAcq LIcmp6 MW; TRd FI6HuntList; TWr FI6HuntList; TRel LIcmp6]
+  (* icmp6.go:30 PrintTable: GetHosts, per host a row read lock, then LANRouters with NO lock *)
+  | I6PrintTable =>
+      {| t_pre := [TAcq LSess MR; TRd FHostTable; TRel LSess];
+         t_each := [TAcq LRow MR; TRd FHostOnline; TRel LRow];
+         t_post := [TRd FI6Routers] |}
+  (* icmp6spoof.go:56 spoofLoop, one iteration: hunt list and `closed` under the handler lock (exit),
+     router list under the lock, then select on h.closeChan read with NO lock *)
+  | I6SpoofLoop =>
+      simple [TAcq LIcmp6 MW; TRd FI6HuntList; TRd FI6Closed; TRd FI6Router; TRd FI6Routers; TRel LIcmp6;
+              TExitIfFlag FI6Closed; TRd FI6CloseChan; TAgain]
+  (* icmp6.go:67 Close: closes whatever channel h.closeChan currently holds *)
+  | I6Close => simple (closeWith FI6Closed [TRd FI6CloseChan] CI6Close)
+
+  (* ---- handlers/dhcp4_spoofer ---- *)
+  (* dhcp4.go:247 ProcessPacket: client branch reads `mode` with no lock; server branch holds the handler
+     lock across the lease table and the session calls (IsCaptured, FindIP, SetDHCPv4IPOffer, DHCPv4Update),
+     may start decline/release senders *)
+  | DhcpProcess =>
+      simple ([TRd FDhcpMode] ++ fIsCaptured ++ [TSpawn DhcpSend]
+              ++ [TAcq LDhcp MW; TRd FDhcpTable; TWr FDhcpTable; TRd FDhcpMode]
+              ++ fIsCaptured ++ fFindIP ++ fSetDHCPv4IPOffer ++ fDHCPv4Update
+              ++ [TSpawn DhcpSend; TRel LDhcp])
+  (* dhcp4.go:175 *)
+  | DhcpMinuteTicker => simple [TAcq LDhcp MW; TRd FDhcpTable; TWr FDhcpTable; TRel LDhcp]
+  (* dhcp4.go:220 *)
+  | DhcpStartHunt => simple [TAcq LDhcp MW; TRd FDhcpTable; TRd FDhcpMode; TSpawn DhcpSend; TRel LDhcp]
+  (* dhcp4.go:207 *)
+  | DhcpPrintTable => simple [TAcq LDhcp MW; TRd FDhcpTable; TRel LDhcp]
+  (* client.go:58,84 sender goroutines: copies of their arguments, Conn.WriteTo only *)
+  | DhcpSend => simple []
+  (* dhcp4.go:165 *)
+  | DhcpClose => simple (closeWith FDhcpClosed [] CDhcpClose)
+
+  (* ---- handlers/dns_naming ---- *)
+  (* dns.go:104 ProcessDNS *)
+  | DnsProcessDNS => simple [TAcq LDns MW; TRd FDnsTable; TWr FDnsTable; TRel LDns]
+  (* mdns.go:314 ProcessMDNS: getMDNSCache DELETES under the read lock (mdns.go:284), putMDNSCache under the write lock *)
+  | DnsProcessMDNS =>
+      simple [TAcq LDns MR; TRd FDnsMdnsCache; TWr FDnsMdnsCache; TRel LDns; TAcq LDns MW; TWr FDnsMdnsCache; TRel LDns]
+  (* dnstable.go:32 DNSFind / :20 DNSExist *)
+  | DnsFind => simple [TAcq LDns MR; TRd FDnsTable; TRel LDns]
+  (* dns.go:55 Close: the two maps are set to nil with NO lock *)
+  | DnsClose => simple [TWr FDnsTable; TWr FDnsMdnsCache]
   end.
 
 (* operations executed by the single packet-loop goroutine: never concurrent with each other *)
 Definition pktloop (o : op) : bool :=
-  match o with ParseFast | ParseSlow | Notify | NotifyDhcp | DHCPv4Update => true | _ => false end.
+  match o with
+  | ParseFast | ParseSlow | Notify | NotifyDhcp | DHCPv4Update
+  | ArpProcess | I6ProcessRA | DhcpProcess | DnsProcessDNS | DnsProcessMDNS => true
+  | _ => false
+  end.
 
 (* goroutines that exist once per session *)
 Definition singleton_op (o : op) : bool :=
@@ -238,6 +347,17 @@ Definition predicted_double_close (a b : op) : bool :=
   existsb (fun c => closes op (template a) c && closes op (template b) c)
           [CNotify; CSessClose; CArpClose; CI6Close; CDhcpClose; CDnsClose].
 
+(* an operation that stores nil into a map field while another (allowed to overlap) assigns an entry
+   of that map: "assignment to entry in nil map" panics (dns.go:55-58 Close vs dns.go:141, mdns.go:307) *)
+Definition nils_map (o : op) : list field :=
+  match o with DnsClose => [FDnsTable; FDnsMdnsCache] | _ => [] end.
+Definition assigns_map (o : op) : list field :=
+  match o with DnsProcessDNS => [FDnsTable] | DnsProcessMDNS => [FDnsMdnsCache] | _ => [] end.
+Definition predicted_nil_map (a b : op) : bool :=
+  concurrent_allowed a b &&
+  (existsb (fun f => existsb (field_eqb f) (assigns_map b)) (nils_map a)
+   || existsb (fun f => existsb (field_eqb f) (assigns_map a)) (nils_map b)).
+
 (* ---------- keys (text shared with the harness and known_findings.txt) ---------- *)
 Open Scope string_scope.
 
@@ -249,7 +369,8 @@ Definition race_key (a b : op) (f : field) : string := "race:" ++ pair_name a b 
 Definition predicted_keys (a b : op) : list string :=
   map (race_key a b) (predicted a b)
   ++ (if predicted_send_on_closed a b then ["panic:" ++ pair_name a b ++ ":send-on-closed-channel"] else [])
-  ++ (if predicted_double_close a b then ["panic:" ++ pair_name a b ++ ":close-of-closed-channel"] else []).
+  ++ (if predicted_double_close a b then ["panic:" ++ pair_name a b ++ ":close-of-closed-channel"] else [])
+  ++ (if predicted_nil_map a b then ["panic:" ++ pair_name a b ++ ":nil-map-write"] else []).
 
 Definition op_of_name (s : string) : option op :=
   find (fun o => String.eqb (op_name o) s) all_ops.
